@@ -107,6 +107,7 @@ def generate(weaken, variant, maxcrash, maxview, cap=180, invs=None):
 # Directed schedules (MC_Guided.tla): key -> (weaken, script operator, validators, weights operator, weights, maxview, invariant)
 GUIDED = {
     "high_vote_keeps_older_same_number@agreement_u6": ("high_vote_keeps_older_same_number", "StaleHighVoteU6", 6, "W111111", [1] * 6, 4, "Agreement", [], "Alternating"),
+    "tqc_same_view_skips_cqc@agreement_u6": ("tqc_same_view_skips_cqc", "SecondTimeoutQCU6", 6, "W111111", [1] * 6, 4, "Agreement", [3], "AnyPayload"),
     "high_vote_tally_by_view@agreement_u6": ("high_vote_tally_by_view", "SplitTallyU6", 6, "W111111", [1] * 6, 4, "Agreement", [6], "AnyPayload"),
 }
 
